@@ -45,6 +45,8 @@ VARS = ["x", "y", "z", "u", "v", "w", "n", "t1", "hp", "力量", "_u", "val"]
 COUNTERS = ["i", "j", "k"]
 INTS = [0, 1, 2, 3, 5, 7, 10, 100, 2147483647, 2147483648, 4294967296, 4611686018427387904, 9223372036854775806,
         9223372036854775807, 9223372036854775808]
+# strings mixing 1-, 2-, 3- and 4-byte characters: a character index is not a byte offset
+MIXED_STRS = ["abc", "力量x", "q", "中abcd", "HP：12/34", "aé力b", "x力y量z", "é1", "a😀b", "力"]
 STRS = ["", "a", "ab", "力", "it's", "a\\b", "x y", "0", "line\nbreak", "{q}", "tab\t."]
 
 
@@ -367,7 +369,9 @@ class Gen:
         if k < 0.8:
             return ("or", self.str_expr(d - 1), self.str_expr(d - 1))
         if k < 0.9:
-            return ("idx", ("str", r.choice(["abc", "力量x", "q"])), ("int", 0) if r.random() < 0.6 else ("neg", ("int", 1)))
+            sv = r.choice(MIXED_STRS)
+            iv = r.randrange(-len(sv) - 1, len(sv) + 2)      # character index: in range from both ends, and just outside
+            return ("idx", ("str", sv), ("int", iv) if iv >= 0 else ("neg", ("int", -iv)))
         v = r.choice(VARS)
         self.types[v] = "str"
         return ("assign", v, self.str_expr(d - 1))
@@ -532,6 +536,9 @@ def matrix_cases():
         out.append(seq([("if", a, ("expr", ("assign", "x", ("int", 1))), ("expr", ("assign", "x", ("int", 2)))), ("expr", ("var", "x"))]))
         for i in [("int", 0), ("int", 1), ("neg", ("int", 1)), ("neg", ("int", 3)), ("int", 5), ("str", "0"), ("null",)]:
             out.append(seq([("expr", ("idx", a, i))]))
+    for sv in MIXED_STRS:
+        for iv in range(-len(sv) - 1, len(sv) + 4):
+            out.append(seq([("expr", ("idx", ("str", sv), ("int", iv) if iv >= 0 else ("neg", ("int", -iv))))]))
     return out
 
 
@@ -860,6 +867,14 @@ def run(res, tier, seed):
             f"{v} = [{a}, 2, 3]; func g(u) {{ t = u[:]; t[0] = {b2}; t }}; [g({v}), {v}]",
             f"{v} = 'abcdef'; w = {v}[:]; [{v}[0:6], w, {v}[-6:] == w]",
             f"{v} = [[{a}], 2]; w = {v}[:]; w[0][0] = {b2}; [{v}, w]",
+            # a computed value has a variable space of its own that persists from one load to the next (also when it was never
+            # given an attribute from outside, and across evaluations, also after a failed one)
+            f"&cnt = (this.n = (this.n ?? 0) + {a}); [cnt, cnt, cnt]; &cnt.n",
+            f"&cnt = (this.n = (this.n ?? 0) + {a}); cnt; cnt + 'x'; [cnt, &cnt.n]",
+            f"&cnt = (n = (n ?? {b2}) + 1); [cnt, cnt]; [cnt, &cnt.n]",
+            f"{v} = {a}; &once = this.m ? this.m : (this.m = {v} * 2); once; {v} = {b2}; [once, &once.m]",
+            f"&cnt = (this.n = (this.n ?? 0) + 1); func g() {{ cnt + cnt }}; [g(), cnt, &cnt.n]",
+            f"&k = (this.n = this.n + 1); &k.n = {b2}; [k, k, &k.n]",
         ])
         parts = shape.split("; ")
         cut = r.randrange(0, len(parts)) if r.random() < 0.4 else 0
